@@ -174,3 +174,35 @@ fn c20_chunking_independence() {
     chunk_case(2, 1, 3, true, 8, 7);
     chunk_case(3, 2, 1, true, 8, 6);
 }
+
+// @harness
+// @prop C20
+// @tier thorough
+// @timeout 3000
+// @fn Player::play (mono and stereo paths); Player::update_ay; Player::new
+// @sym all register bytes; a second, larger set of literal structures: mono (3,50,3,n=10 whole track +1) and every split point a = 0..=8 of an 8-element stereo request over (3 frames, spf 1) and of a mono request over (2 frames, spf 3)
+// @assert as c20_mono_schedule / c20_chunking_independence
+// @bound <= 3 frames x <= 3 samples/frame; all split points of two request shapes (unwind 50)
+#[kani::proof]
+#[kani::unwind(50)]
+fn c20_all_split_points() {
+    mono_case(3, 50, 3, 0, 10);
+    chunk_case(3, 50, 1, true, 8, 0);
+    chunk_case(3, 50, 1, true, 8, 1);
+    chunk_case(3, 50, 1, true, 8, 2);
+    chunk_case(3, 50, 1, true, 8, 3);
+    chunk_case(3, 50, 1, true, 8, 4);
+    chunk_case(3, 50, 1, true, 8, 5);
+    chunk_case(3, 50, 1, true, 8, 6);
+    chunk_case(3, 50, 1, true, 8, 7);
+    chunk_case(3, 50, 1, true, 8, 8);
+    chunk_case(2, 50, 3, false, 8, 0);
+    chunk_case(2, 50, 3, false, 8, 1);
+    chunk_case(2, 50, 3, false, 8, 2);
+    chunk_case(2, 50, 3, false, 8, 3);
+    chunk_case(2, 50, 3, false, 8, 4);
+    chunk_case(2, 50, 3, false, 8, 5);
+    chunk_case(2, 50, 3, false, 8, 6);
+    chunk_case(2, 50, 3, false, 8, 7);
+    chunk_case(2, 50, 3, false, 8, 8);
+}
